@@ -58,6 +58,33 @@ func liveRecovery(s *sim.Sim, pid, code string) bool {
 	return false
 }
 
+// secondFactorProven reports which proof of U's second factor a well-formed validate request carried
+// ("" if none): a currently acceptable TOTP code of U's secret, a code the SMS outbox delivered to U's
+// number, or one of U's unused recovery codes.
+func secondFactorProven(s *sim.Sim, st *sim.Step, U, flow string) string {
+	a, rec := st.Act, st.Rec
+	u := rec.Before.Users[U]
+	if u == nil || a.Kind != flow {
+		return ""
+	}
+	switch flow {
+	case "totp_validate":
+		if s.Cfg.Has2FA("totp") && u.TOTPSecretKey != "" && sim.TOTPCodes(u.TOTPSecretKey)[a.Secret] && a.Secret2 == "" {
+			return "totp-code"
+		}
+	case "sms_validate":
+		if s.Cfg.Has2FA("sms") && a.Secret2 == "" && s.SMSSentTo(u.SMSPhone, a.Secret) {
+			return "sms-code"
+		}
+	default:
+		return ""
+	}
+	if liveRecovery(s, U, a.Secret2) {
+		return "recovery"
+	}
+	return ""
+}
+
 type c02mon struct{ stats *sim.Stats }
 
 func (m c02mon) Check(s *sim.Sim, st *sim.Step) []*sim.Violation {
@@ -77,27 +104,18 @@ func (m c02mon) Check(s *sim.Sim, st *sim.Step) []*sim.Violation {
 	if rememberJustifies(s, st, U) {
 		return nil
 	}
-	form := a.Kind == flow // a well-formed request of that flow built by the harness
 	switch flow {
 	case "login", "otp_login", "recover_end":
 		return []*sim.Violation{vio("C02", "primary-yields-session|"+flow, "%s produced a logged-in session for %q although it has a second factor enabled (totp=%v sms=%v)", flow, U, u.TOTPSecretKey != "", u.SMSPhone != "")}
 	case "totp_validate":
-		if form && s.Cfg.Has2FA("totp") && u.TOTPSecretKey != "" && sim.TOTPCodes(u.TOTPSecretKey)[a.Secret] && a.Secret2 == "" {
-			m.stats.Count("2fa-complete:totp-code")
-			return nil
-		}
-		if form && liveRecovery(s, U, a.Secret2) {
-			m.stats.Count("2fa-complete:recovery")
+		if how := secondFactorProven(s, st, U, flow); how != "" {
+			m.stats.Count("2fa-complete:" + how)
 			return nil
 		}
 		return []*sim.Violation{vio("C02", "totp-validate-without-valid-code|"+a.Resolved, "pending login of %q completed at the TOTP step by a request whose code is neither a current code of its secret nor one of its unused recovery codes (class %s)", U, a.Resolved)}
 	case "sms_validate":
-		if form && s.Cfg.Has2FA("sms") && a.Secret2 == "" && s.SMSSentTo(u.SMSPhone, a.Secret) {
-			m.stats.Count("2fa-complete:sms-code")
-			return nil
-		}
-		if form && liveRecovery(s, U, a.Secret2) {
-			m.stats.Count("2fa-complete:recovery")
+		if how := secondFactorProven(s, st, U, flow); how != "" {
+			m.stats.Count("2fa-complete:" + how)
 			return nil
 		}
 		return []*sim.Violation{vio("C02", "sms-validate-code-not-sent-to-own-number|"+a.Resolved, "pending login of %q (registered number %q) completed at the SMS step with code %q, which the SMS outbox never delivered to that number, and without an unused recovery code (class %s)", U, u.SMSPhone, a.Secret, a.Resolved)}
@@ -209,6 +227,26 @@ var c02Templates = []sim.Template{
 		}
 		b := s.R.Intn(len(s.Br))
 		return []*sim.Action{act("login", b, v, "ok"), act("login", b, x, "ok"), act("sms_validate", b, -9, "lastsms"), act("login", b, v, "ok"), act("sms_validate", b, -9, "ownsms", "own", fmt.Sprint(x))}
+	}},
+	{Name: "totp-own-session-then-victim-password", F: func(s *sim.Sim) []*sim.Action {
+		// fully logged in on an own TOTP account, then the victim's password in the same session (the
+		// login is parked, the own session stays), then own proofs at the validate step: the own code
+		// and an own recovery code prove the OWN second factor — the session must stay the own account's
+		if !s.Cfg.Has2FA("totp") || !s.Cfg.Has("auth") {
+			return nil
+		}
+		x := findAcct(s, func(u *world.User) bool { return u.TOTPSecretKey != "" && u.Confirmed })
+		v := findAcct(s, func(u *world.User) bool { return u.TOTPSecretKey != "" && u.Confirmed }, x)
+		if x < 0 || v < 0 {
+			return nil
+		}
+		b := s.R.Intn(len(s.Br))
+		sc := []*sim.Action{act("login", b, x, "ok"), act("totp_validate", b, -9, "ok"), act("advance", b, -9, "", "d", "31s"), act("login", b, v, "ok"),
+			act("totp_validate", b, -9, pickS(s.R, "ok", "recovery")), act("visit", b, -9, "", "route", "/protected/bare")}
+		if s.R.Intn(2) == 0 {
+			sc = append(sc, act("login", b, v, "ok"), act("advance", b, -9, "", "d", "31s"), act("totp_validate", b, -9, pickS(s.R, "ok", "recovery")))
+		}
+		return sc
 	}},
 	{Name: "cross-kind-pending", F: func(s *sim.Sim) []*sim.Action {
 		if len(s.Cfg.TwoFA) < 2 || !s.Cfg.Has("auth") {
